@@ -1,6 +1,6 @@
 CONSTANTS
-  Idents = {"a", "foo_bar", "r#type", "class", "x_", "http_url_v2"}
-  Renames = {"none", "other", "foo-bar", "class"}
+  Idents = {"a", "foo_bar", "r#type", "class", "x_", "http_url_v2", "user_id", "id"}
+  Renames = {"none", "other", "parentId", "foo-bar", "class"}
   RuleSet = {"none", "lowercase", "UPPERCASE", "PascalCase", "camelCase", "snake_case", "SCREAMING_SNAKE_CASE", "kebab-case", "SCREAMING-KEBAB-CASE"}
   Spellings = {"merged", "split"}
   EnumRules = {"none", "SCREAMING_SNAKE_CASE"}
